@@ -44,15 +44,16 @@ def explore(acc, ops, chk, depth, scratch, first_filter=None, kind_name="seq"):
     path = os.path.join(scratch, f"seq-{os.getpid()}.jsonl")
     fd = os.open(path, os.O_WRONLY | os.O_CREAT | os.O_TRUNC | os.O_APPEND, 0o600)
     try:
+        _run_tree(ops, chk, 1, [], fd, None)            # every operation alone (what already fails on a fresh image)
+        os.write(fd, b'{"marker": 1}\n')
         _run_tree(ops, chk, depth, [], fd, first_filter)
     finally:
         os.close(fd)
-    recs = [json.loads(l) for l in open(path)]
+    lines = [json.loads(l) for l in open(path)]
     os.unlink(path)
-    fails_alone = set()
-    for r in recs:
-        if len(r["seq"]) == 1 and r.get("viol"):
-            fails_alone.add(r["seq"][0])
+    cut = next(i for i, r in enumerate(lines) if "marker" in r)
+    fails_alone = {r["seq"][0] for r in lines[:cut] if r.get("viol")}
+    recs = lines[cut + 1:]
     for r in recs:
         acc.evaluations += 1
         acc.executions += 1
